@@ -400,6 +400,10 @@ class Controller:
 
     # a wait on thread futures: runs on the scheduler thread, may block it
     def _thread_wait(self, ids, mode, futures):
+        # nodes released a moment ago (by the helper of a patient wait) are on their way out: let them get there
+        leaving = [i for i in ids if i in self.released and i not in self.exited]
+        if leaving:
+            self._wait_exit(leaving)
         settled = self._settle()
         # a node released in the background has emitted its exit event; its future becomes done a moment later
         gone = [futures[i] for i in ids if i in self.exited]
@@ -466,6 +470,9 @@ class Controller:
     # a wait on asyncio futures: the scheduler coroutine is suspended, this runs on a helper thread
     def _async_wait(self, ids, mode, tok):
         try:
+            leaving = [i for i in ids if i in self.released and i not in self.exited]
+            if leaving:
+                self._wait_exit(leaving)
             settled = self._settle()
             with self.cv:
                 if tok["abandoned"]:
